@@ -27,6 +27,7 @@ VMAX = rt.envint("VF_VMAX", 3)
 STRATEGY = rt.envint("VF_STRATEGY", 1)
 RUNMODE = rt.envstr("VF_RUNMODE", "start")
 PRIOSYM = rt.envint("VF_PRIOSYM", 1)
+LOGLEVEL = rt.envint("VF_LOGLEVEL", -2)   # -2: set_error_strategy(strategy); else the documented log-level override
 FIXFAILS = [c == "1" for c in rt.envstr("VF_FIXFAILS", "")]     # split: fix the fault mask
 
 
@@ -64,7 +65,10 @@ def faulty(vals, prios, fails, end, bound):
     cancels = [-1] * K
     model = TableModel(sim, KINDS, vals, prios, PARENTS, cancels, fails=fails)
     rep = SingleReplication("rep", conv(0), conv(0), conv(end))
-    sim.set_error_strategy(STRATEGY)
+    if LOGLEVEL == -2:
+        sim.set_error_strategy(STRATEGY)
+    else:
+        sim.set_error_strategy(STRATEGY, LOGLEVEL)
     quiet(sim.initialize, model, rep)
     spy = Spy()
     sim.add_listener(Simulator.START_EVENT, spy)
